@@ -193,3 +193,55 @@ pub fn run_aiter(w: &[&str]) -> String {
     }
     format!("{} | {}", res[0], res[1])
 }
+
+/// `reuse <hex> <step>,<step>,...`: ONE `Decoder` over the buffer is driven through the whole script (a step = `<pos>:<what>`: `set_position(pos)`,
+/// then one typed decode / accessor / partial iteration), next to a FRESH decoder per step.  A decoder is its input and a position:
+/// whatever happened before on the same object (failed decodes, abandoned iterators, probes) must not change what a step answers.
+/// `<n same> <first differing step: reused => fresh | ->`.
+pub fn run_reuse(w: &[&str]) -> String {
+    use std::collections::{BTreeMap, HashMap, VecDeque, BinaryHeap};
+    if w.len() != 2 { return "bad-op".into() }
+    let input = match unhex(w[0]) { Some(b) => b, None => return "bad-op".into() };
+    fn fin<T: std::fmt::Debug>(r: Result<T, minicbor::decode::Error>, d: &Decoder<'_>) -> String {
+        match r { Ok(v) => format!("ok:{:?}@{}", v, d.position()), Err(e) => format!("err:{}@{}", dclass(&e), d.position()) }
+    }
+    fn step<'b>(d: &mut Decoder<'b>, what: &str) -> Option<String> {
+        Some(match what {
+            "vu8" => { let r = d.decode::<Vec<u8>>(); fin(r, d) }
+            "vvs" => { let r = d.decode::<Vec<Vec<String>>>(); fin(r, d) }
+            "dq" => { let r = d.decode::<VecDeque<Option<u16>>>(); fin(r, d) }
+            "bh" => { let r = d.decode::<BinaryHeap<u8>>().map(|h| h.into_sorted_vec()); fin(r, d) }
+            "mu" => { let r = d.decode::<BTreeMap<u8, u8>>(); fin(r, d) }
+            "hm" => { let r = d.decode::<HashMap<u8, Vec<u8>>>().map(|h| h.into_iter().collect::<BTreeMap<_, _>>()); fin(r, d) }
+            "a3" => { let r = d.decode::<[u8; 3]>(); fin(r, d) }
+            "t2" => { let r = d.decode::<(u8, Vec<u8>)>(); fin(r, d) }
+            "ou" => { let r = d.decode::<Option<Vec<u8>>>(); fin(r, d) }
+            "s" => { let r = d.str().map(|s| s.len()); fin(r, d) }
+            "int" => { let r = d.int().map(i128::from); fin(r, d) }
+            "tok" => { let r = d.decode::<minicbor::data::Token<'_>>().map(|t| crate::tokop::show(&t)); fin(r, d) }
+            "ai1" => { let r = d.array_iter::<u8>().map(|mut it| it.next().map(|x| x.map_err(|e| dclass(&e)))); fin(r, d) }       // abandoned after one element
+            "mi1" => { let r = d.map_iter::<u8, u8>().map(|mut it| it.next().map(|x| x.map_err(|e| dclass(&e)))); fin(r, d) }
+            "bi1" => { let r = d.bytes_iter().map(|mut it| it.next().map(|x| x.map(|b| b.len()).map_err(|e| dclass(&e)))); fin(r, d) }
+            "toks3" => { let v: Vec<String> = d.tokens().take(3).map(|t| match t { Ok(t) => crate::tokop::show(&t), Err(e) => format!("E:{}", dclass(&e)) }).collect(); format!("ok:{:?}@{}", v, d.position()) }
+            "probe" => { let r = d.probe().array(); fin(r, d) }
+            "skip" => { let r = d.skip(); fin(r, d) }
+            "dt" => { let r = d.datatype().map(tyname); fin(r, d) }
+            x if x.starts_with("x-") => { let r = call(d, &x[2..])?; fin(r, d) }                      // any plain accessor of `dec`
+            _ => return None
+        })
+    }
+    let mut d = Decoder::new(&input);
+    let mut same = 0usize;
+    for st in w[1].split(',') {
+        let (p, what) = match st.split_once(':') { Some((p, x)) => (p, x), None => return "bad-op".into() };
+        let pos = match p.parse::<usize>() { Ok(p) if p <= input.len() => p, _ => return "bad-op".into() };
+        d.set_position(pos);
+        let a = match step(&mut d, what) { Some(a) => a, None => return "bad-op".into() };
+        let mut f = Decoder::new(&input);
+        f.set_position(pos);
+        let b = step(&mut f, what).unwrap();
+        if a != b { return format!("{} {}: {} => {}", same, st, a, b) }
+        same += 1;
+    }
+    format!("{} -", same)
+}
